@@ -12,7 +12,8 @@ fn main() {
             let tier = Tier::parse(&get("--tier", "quick"));
             let out = PathBuf::from(get("--out", &format!("/verif/generated/{}/rt", tier.name())));
             let n: usize = get("--crates", if tier == Tier::Quick { "16" } else { "48" }).parse().unwrap();
-            rt::generate(tier, &out, n);
+            let skip: Vec<usize> = get("--skip", "").split(',').filter_map(|x| x.trim().parse().ok()).collect();
+            rt::generate(tier, &out, n, &skip);
         }
         "cc" => {
             let tier = Tier::parse(&get("--tier", "quick"));
